@@ -72,6 +72,13 @@ def flowReply (input impl : Json) : R Reply := do
     if !mayProcess && wChecked then s!"in-flight work reached the check pipeline through the {path} flow"
     else if !mayProcess && wResult then s!"in-flight work is a performable of the observation ({path})"
     else if !mayPropose && wProposal then s!"in-flight work is a proposal of the observation ({path})"
+    -- "... or the lockout window has expired, the work is processed again": the release direction
+    else if accepted && offered && ctlChecked && mayProcess && !wChecked then
+      s!"released work (phase {phase}) did not reach the check pipeline through the {path} flow"
+    else if accepted && path == "staged-result" && ctlResult && mayProcess && !wResult then
+      s!"released work (phase {phase}) is missing from the observation's performables although its result is staged"
+    else if accepted && path == "staged-proposal" && ctlProposal && mayPropose && !wProposal then
+      s!"released work (phase {phase}) is missing from the observation's proposals"
     else ""
   pure { agree := agree, specModel := specM, specImpl := fail.isEmpty, diff := diff, fail := fail,
          nontrivial := (if offered then ctlChecked else ctlResult || ctlProposal),
@@ -86,6 +93,7 @@ def flowReply (input impl : Json) : R Reply := do
 def handle (input impl : Json) : R Reply := do
   if let some k := isRace input then
     if k == "flow" then return ← flowReply input impl
+    if k == "capacity" then return ← capacityReply input impl
     return ← raceReply k input impl
   let e ← replay true input impl
   pure { agree := e.agree, specModel := e.specM, specImpl := e.specI, diff := e.diff, fail := e.fail,
